@@ -312,6 +312,10 @@ def run(prog, rep, tier):
     rep.assumptions += ['hypothesis: stored blocks of the input satisfy the charge rule',
                         'make_valid treated as identity (equalities modulo the charge group)',
                         'residuals / isometry / triangularity are NOT decided']
+    from ..flow import check_dead_computations
+    rep.rule('VALUE-dead', 'no result of a call is bound to a local that is never read (reaching '
+             'definitions)')
+    check_dead_computations(prog, rep, ['tenpy/tools/math.py', 'tenpy/linalg/svd_robust.py', 'tenpy/linalg/np_conserved.py'])
     return rep.finish(
         level='other',
         explanation='Charge compatibility of the new internal leg decided exhaustively over '
